@@ -2,7 +2,7 @@
 
 from __future__ import annotations
 
-from lsst.daf.relation import MarkerRelation
+from lsst.daf.relation import MarkerRelation, Transfer
 
 from .. import alphabet as A
 from .. import spaces, walk
@@ -55,6 +55,8 @@ SLICE_EDITS = (
     ("index", 2),
 )
 IT_EDITS = (
+    ("chain", ("E0",)),
+    ("chain", ("E0",), True),
     ("calc", "w", ("add", spaces.C_ONLY_SQL, L(1))),
     ("sel", ("gt", ("add", spaces.C_ONLY_SQL, L(1)), L(0))),
     ("chain", ("L2", ("proj", ("a",)))),
@@ -64,6 +66,8 @@ IT_EDITS = (
     S((spaces.C_ONLY_SQL, True)),
 )
 SQL_EDITS = (
+    ("chain", ("E",)),
+    ("chain", ("E",), True),
     ("join", ("K",), None, False, ("a",)),
     ("join", ("K",), None, True, ("a",)),
     ("calc", "w", ("add", spaces.C_ONLY_IT, L(1))),
@@ -77,6 +81,9 @@ SQL_EDITS = (
     ("join", ("K",), ("only", "iteration", ("gt", R("d"), R("a"))), False),
 )
 MULTI_EDITS = (
+    ("join", ("I1",), None, False),
+    ("join", ("IS",), None, False),
+    ("chain", ("E1",)),
     ("join", ("K",), None, False, ("a",)),
     pe(("join", ("K",), None, False, ("a",)), "s", True, True, False),
     ("chain", ("L2",)),
@@ -187,7 +194,19 @@ class C20(Check):
             return False
         inner = tr.op[1] if tr.op[0] == "pe" else tr.op
         backtracking = tr.op[0] != "pe" or tr.op[3]
-        if inner[0] == "join" and tr.rej.classes == {"EngineError"} and backtracking and A.engine_restriction(inner[2] or ("plit", True)) is None:
+        partner_engine = None
+        if inner[0] == "join":
+            partner_engine = str(tr.ctx.operand(tr.parent_rel, inner[1]).engine)
+        can_backtrack = partner_engine is not None and any(
+            isinstance(n, Transfer) and str(n.target.engine) == partner_engine for n in walk.walk(tr.parent_rel)
+        )
+        if (
+            inner[0] == "join"
+            and tr.rej.classes == {"EngineError"}
+            and backtracking
+            and can_backtrack
+            and A.engine_restriction(inner[2] or ("plit", True)) is None
+        ):
             # operands in different engines, but backtracking is allowed and may legitimately place the join upstream
             tr.count("cross_engine_join_with_backtracking_skipped")
             return False
